@@ -1,6 +1,5 @@
 package main
 
 func genTags(p *pkgInfo, out string)           {}
-func genErrSites(p *pkgInfo, out string)       {}
 func genEffects(p, enc *pkgInfo, out string)   {}
 func genEmbedded(enc *pkgInfo, out string)     {}
